@@ -140,8 +140,16 @@ def supports (b : Backend) (k : KeyType) : Bool := b == .aws || k != .p521
 /-- what `generate_for` / rcgen's own export produce: the format of `serialize_der` -/
 def exportFormat (b : Backend) (k : KeyType) : DocFormat :=
   match b, k with
-  | .ring, .ed25519 => .pkcs8v2
+  | _, .ed25519 => .pkcs8v2          -- both back ends attach the public key (RFC 5958 v2)
   | _, _ => .pkcs8v1
+
+/-- the format of `serialize_der()` / `serialize_pem()` of a key *loaded* from document `d`
+    (key_pair.rs `TryFrom<&PrivateKeyDer>` and `from_der_and_sign_algo`): a PKCS#8 input is kept
+    as it is; aws-lc-rs also loads SEC1 and PKCS#1, and converts those to PKCS#8 (`to_pkcs8v1`) -/
+def exportOfLoaded (b : Backend) (d : KeyDoc) : DocFormat :=
+  match b with
+  | .ring => d.fmt
+  | .aws => if d.wrapper == .pkcs8 then d.fmt else .pkcs8v1
 
 /-- sign_algo.rs `PartialEq`: compares (oids_sign_alg, oid_components) -/
 def algEq (a b : SigAlg) : Bool := a.keyOids == b.keyOids && a.sigOid == b.sigOid
